@@ -45,6 +45,7 @@ def handle (cmd : String) (j : J) : Except String J :=
     let lc ← getStr j "lc"
     pure (recsJ (fasterParser lc (← getLines j "lines")))
   | "fasta_bytes" => do pure (recsJ (fastaBytes (← getStr j "text")))
+  | "fasta_bytes_ls" => do pure (recsJ (fastaBytesLS (← getStr j "text")))
   | "fasta_text" => do
     -- all three FASTA parsers on the text of one file
     let t ← getStr j "text"
